@@ -148,6 +148,8 @@ CURATED_BIG = {
     'k_serial_big': O(*([C('Composite', L, L, headless=True)] * 88 + [O(L, L, L, L, L, L, L, L)]), headless=True),
     # wide resumable regions nested, widths 9 / 17
     'k_wide_nested': C('Resumable', C('Resumable', *([L] * 9)), C('Composite', *([L] * 17)), O(C('Resumable', L, L, L), C('Composite', L, L, L, L, L)), L),
+    # more than 255 states without any orthogonal region (8-bit arithmetic on state ids in the no-orthogonal registry)
+    'k_states273': C('Composite', *[C('Resumable' if i % 2 else 'Composite', *([L] * 15)) for i in range(17)]),
     # deep alternation of orthogonal and composite regions
     'k_deep_ortho': C('Composite', O(C('Resumable', O(C('Composite', O(C('Resumable', L, L), L), L), L), L), C('Composite', L, L)), L),
 }
